@@ -18,7 +18,7 @@ EXPLANATION = (
     "phi_max is. C08.2: each application has the normal form N*ifft(L*fft(N*A)), N = exp(j*gamma*(s/2)*|A|^2), L = exp(D_op*s) with "
     "one and the same s. C08.3: a constant subscript used as polarisation selector on the field (rank 1 or 2 depending on n_pol) must "
     "be dominated by a two-polarisation guard; otherwise it selects samples of a one-polarisation signal. C08.4: each disjunct of the "
-    "single-step shortcut is gamma==0 or tests ==0 every parameter D_op depends on (alpha, beta_2, beta_3). C08.6: D_op is the NLSE's linear operator -alpha'/2 - j/2*beta2*W^2 - j/6*beta3*W^3 (shared with C07.3). Not decided: convergence "
+    "single-step shortcut is gamma==0 or tests ==0 every parameter D_op depends on (alpha, beta_2, beta_3). C08.6: D_op is the NLSE's linear operator -alpha'/2 - j/2*beta2*W^2 - j/6*beta3*W^3 (shared with C07.3). C08.7: the returned field is the field the stepping loop ends with (not a cast copy stored into a buffer of the input's dtype). Not decided: convergence "
     "to the NLSE solution, finiteness.")
 TRUSTED = ["numpy.fft", "Karr's affine-relation domain as implemented in ocv/karr.py", "C07.3 (D_op form)"]
 
@@ -366,11 +366,31 @@ def run(ctx):
     rule_rank_guard(ctx, fi)
     rule_shortcut(ctx, fi, it)
     rule_dop(ctx, fi, it, "C08.6")       # the scheme converges to the NLSE only with the NLSE's own linear operator
-    # the noise-free output is built from the propagated field with the input's layout
-    outs = [o for o in it.outcomes if o.kind == "return"]
+    # C08.7 the returned field IS the propagated field: a store of it into a buffer that has the input's dtype (output = input.copy();
+    # output.signal[:] = A) casts the complex result - for a field given as real samples the imaginary part is dropped
+    sites = find_sites(fi, itn)
+    outs = [o for o in itn.outcomes if o.kind == "return" and isinstance(o.value, ObjV)]
+    if sites and len(outs) == 1 and isinstance(getattr(itn, "final_env", None), dict):
+        fvar = sites[-1][1]
+        final = itn.final_env.get(fvar)
+        got = outs[0].value.fields.get("signal")
+        ga = got.single_atom() if isinstance(got, Form) else None
+        if ga is not None and ga[0] == "fn" and ga[1] == "setitem":
+            ctx.violation("C08.7", fi, outs[0].node, f"FIBER: output.signal = {got!r}"[:200],
+                          "the propagated field is stored element-wise into an existing buffer (a copy of the input): numpy casts it to that buffer's dtype, so for an input built from real or "
+                          "integer samples the imaginary part of the result is dropped (energy law, SPM closed form and convergence all fail for such inputs)")
+        elif isinstance(final, Form) and isinstance(got, Form):
+            from ..forms import vkey
+            ctx.check("C08.7", vkey(got) == vkey(final), fi, outs[0].node, "FIBER: output.signal is the propagated field", f"the final value of `{fvar}`",
+                      f"the returned signal {got!r} is not the field the stepping loop ends with ({final!r})"[:500])
+        else:
+            ctx.unknown("C08.7", fi, fi.node, "FIBER: output field", "returned signal or final field not determined")
+    else:
+        ctx.unknown("C08.7", fi, fi.node, "FIBER: output field", "no propagation site / single return")
     check_late_binding(ctx, "C08.5", ["devices.FIBER"])
     ctx.require_min("C08.1", 1)
     ctx.require_min("C08.2", 2)
     ctx.require_min("C08.3", 1)
     ctx.require_min("C08.4", 2)
     ctx.require_min("C08.6", 4)
+    ctx.require_min("C08.7", 1)
